@@ -645,6 +645,10 @@ def judge_modes(prog, base, r, lines=None):
         return v, "%s:answers-where-default-raises-NegativeCycle-on-unstratified-program" % fam, d
     if rmsg.startswith("IndirectCallCycleError") and not bmsg.startswith("IndirectCallCycleError"):
         return v, "%s:IndirectCallCycleError-only-in-this-mode" % fam, d
+    if (r["err"] == "INTERNAL:RecursionError" and base["err"] != r["err"] and uses_findall(prog)
+            and "\\+" in source_text(prog)):
+        # findall/all over goals that involve negation: the unbuffered engines recurse without bound
+        return v, "%s:RecursionError-only-in-this-mode" % fam, d
     if r["err"] == "INTERNAL:InvalidEngineState" and base["err"] != r["err"]:
         return v, "%s:InvalidEngineState-only-in-this-mode" % fam, d
     if base["status"] == "ok" and r["status"] == "ok" and uses_findall(prog):
